@@ -58,6 +58,14 @@ def pairs(ctx):
             c = gen.hexpx(gen.premul_pixel(rng))
             if rng.random() < 0.5:      # clear ignores the current transform, on both routes
                 hdr = hdr + " ; xf " + scene.xf_tokens(scene.rand_xf(rng))
+            if rng.random() < 0.4:      # ... and clears the innermost open layer, on both routes
+                lay = " ; layer %d %d" % (gen.alpha_bits(rng), rng.choice([3, 3, 1, 12]))
+                if rng.random() < 0.5:
+                    lay += " ; fillrect %d %d %d %d %s %s" % (FB(0.0), FB(0.0), FB(float(W)), FB(1.0), src, opts)
+                A.append("scene %d %s%s ; clear %s ; poplayer" % (len(A), hdr, lay, c))
+                B.append("scene %d %s%s ; %s ; clear %s ; popclip ; poplayer" % (len(B), hdr, lay, cover, c))
+                kinds.append("clear with an empty clip stack vs under a surface-covering clip, inside an open layer")
+                continue
             A.append("scene %d %s ; clear %s" % (len(A), hdr, c))
             B.append("scene %d %s ; %s ; clear %s" % (len(B), hdr, cover, c))
             kinds.append("clear with an empty clip stack vs under a surface-covering clip")
